@@ -26,6 +26,9 @@ def main():
     prop = sys.argv[1].upper()
     patches = [os.path.abspath(a) for a in sys.argv[2:]] or sorted(glob.glob(os.path.join(ROOT, "mutants", prop, "*.patch")))
     wt = f"/var/tmp/vf-sens-{prop}-{os.getpid()}"
+    # a run against a changed tree must not leave its evidence behind: evidence/<ID>.json describes /repo itself
+    evp = os.path.join(ROOT, "evidence", prop + ".json")
+    saved_ev = open(evp, "rb").read() if os.path.exists(evp) else None
     sh(["git", "-C", "/repo", "worktree", "add", "--detach", wt, "HEAD"])
     results = []
     try:
@@ -43,6 +46,10 @@ def main():
             results.append((p, verdict, round(time.time() - t, 1), buckets))
             print(os.path.basename(p), verdict, round(time.time() - t, 1), buckets[:1], flush=True)
     finally:
+        if saved_ev is not None:
+            with open(evp, "wb") as f:
+                f.write(saved_ev)
+        shutil.rmtree(os.path.join(ROOT, "failures", prop), ignore_errors=True)
         sh(["git", "-C", "/repo", "worktree", "remove", "--force", wt])
         shutil.rmtree(wt, ignore_errors=True)
         # cargo target + built extensions of that scratch copy
